@@ -17,6 +17,7 @@
 //   C <kind> <spec-hex>              all_of any_of one_of differ disjoint
 //   B                                addBracketHandler( counting lambdas) on the current handler
 //   SG <keyspec-hex> <flags>         start a sub-group handler (following A lines define its arguments) ... SE ends it
+//   AF <keyspec-hex>                 addArgumentFile( spec); "@HOME@" in an argv word is replaced by the scratch home directory
 //   N <hex>                          checkEnvVarArgs( name)
 //   P <relpath-hex> <content-hex>    file below $HOME
 //   E <name-hex> <value-hex>         setenv (unset again after the scenario)
@@ -569,7 +570,20 @@ static void runScenario(const Scenario& sc, uint64_t idx)
             createdFiles.push_back(p);
          }
          else if (c == "E") { string n = unhexf(t[1]); setenv(n.c_str(), unhexf(t.size() > 2 ? t[2] : "-").c_str(), 1); setEnvs.push_back(n); }
-         else if (c == "V") { words.clear(); for (size_t i = 1; i < t.size(); ++i) words.push_back(unhexf(t[i])); haveArgv = true; }
+         else if (c == "AF") { if (!cur) { single.reset(new Handler(out, err, 0)); cur = single.get(); } cur->addArgumentFile(unhexf(t[1])); }
+         else if (c == "V")
+         {
+            words.clear();
+            for (size_t i = 1; i < t.size(); ++i)
+            {
+               string w = unhexf(t[i]);
+               // "@HOME@" stands for the scratch home directory of this run (argument file paths)
+               auto hp = w.find("@HOME@");
+               if (hp != string::npos) w.replace(hp, 6, homeDir);
+               words.push_back(w);
+            }
+            haveArgv = true;
+         }
          else if (c == "Q")
          {
             // C07 part 1: string -> argv
